@@ -116,7 +116,10 @@ def _c20_sweep(tier):
         for site in sites:
             for exc in (gen.EXC_CLASSES if site["site"] not in ("cbi", "eval", "compile") or tier != "quick" or ("of" in site and site["site"] == "eval") else ["KeyboardInterrupt", "ValueError"]):
                 f = dict(site, exc=exc)
-                ops = sc["prefix"] + [gen.with_fault(sc["target"], f)] + sc["suffix"]
+                pre = sc["prefix"]
+                if site["site"] == "compile" and pre[-1][0] == "solve":
+                    pre = pre[:-1]  # cold: the warm-up solve would have left the callables in the problem's cache
+                ops = pre + [gen.with_fault(sc["target"], f)] + sc["suffix"]
                 tag = f"sc{i - 1}:{evs[0].get('method')}:K{K}:{site['site']}{site.get('k', '')}j{site.get('j', '')}a{site.get('after_exit', '')}o{site.get('of', '')}e{site.get('entry', 0)}:{exc}"
                 yield tag, {"knobs": knobs, "ops": ops}
 
